@@ -27,6 +27,9 @@ func (f BmvAuxModeFactoryType) New(v uint8) (BmvAuxMode, error) {
 }
 
 func (f BmvAuxModeFactoryType) NewEnum(v int) (Enum, error) {
+	if v < 0 || v > 255 {
+		return nil, ErrInvalidEnumIdx
+	}
 	return f.New(uint8(v))
 }
 
